@@ -90,6 +90,12 @@ def powNatS (r : Nat) (x : List K) : List K :=
   | 2 => squareS x
   | r+3 => (List.range (r+2)).foldl (fun y _ => mulS x y) x
 
+/-- algorithms.py `_pow_real`, branch for an ndarray of non-negative integer exponents, seen at one entry of
+the array: `y = 1; for n in 1..m: y = where(r >= n, x*y, y)`, where `r` is the entry's exponent and `m` the
+largest exponent of the array (so `m ≥ r`). -/
+def powMaskS (r m : Nat) (x : List K) : List K :=
+  (List.range m).foldl (fun y n => if n + 1 ≤ r then mulS x y else y) (constS 1 x.length)
+
 /-! ## coupled recurrences (two series built together) -/
 
 /-- algorithms.py:915-932 `_sincos` -/
